@@ -2297,6 +2297,18 @@ def gen_gridn(rng, nops):
         else:
             lines.append(rng.choice(["create 1", "add 3", "rm", "abandon now", "obs 1", "has"]))
     lines += ["abandon", "add", "obs"]
+    if rng.chance(1, 3):
+        # observer sandwich: every observer (getContent/getCoordinates/getCells/components/status, has, neighbors) is asked
+        # before and after EVERY operation, so an observer that remembers an earlier answer goes stale visibly
+        # (seeded C13-s7: components() memoised, GridN::remove bypassing the invalidation)
+        watched = [lines[0], "obs"]
+        for ln in lines[1:]:
+            if ln != "obs":
+                watched += [ln, "obs"]
+                t = ln.split()
+                if t[0] in ("create", "rm") and len(t) > dim:
+                    watched += ["has " + " ".join(t[1:1 + dim]), "nb " + " ".join(t[1:1 + dim])]
+        lines = watched
     return lines
 
 
@@ -2486,6 +2498,8 @@ def judge_gridn(ck, hbin, script, tag, pre=None):
     fail = gridn_oracle(script, impl, stats)
     ck.case(("gridn",) + tuple(script), stats["gn:abandoned"] >= 2)
     ck.count("gn:scripts:" + tag)
+    if script.count("obs") * 4 > len(script):
+        ck.count("gn:scripts-with-observers-around-every-op")
     ck.count("gn:ops", len(script) - 1)
     for k, v in stats.items():
         ck.count(k, v)
@@ -3079,7 +3093,9 @@ MANIFEST = {
             "(gridB_split_inv), remove of a never-added cell answers false and restores every counter and flag "
             "(gridB_split_abandon_false, gridB_split_create_abandon_restores), tops are best cells inside the window too "
             "(gridB_split_tops_best), and every cell's data is the update event's output for its current counter and flag "
-            "(gridB_keys_fresh, any event).",
+            "(gridB_keys_fresh, any event); components() as coded partitions every reachable split state "
+            "(gridB_split_components); and for every Discretization history each cell's queue key is computeImportance of its "
+            "current score, coverage and neighbour counter with a selection count at most the current one (disc_importance_fresh).",
     "note": "Trusted: Lean kernel, the three standard axioms, the hand-written model outside the scripts the correspondence explored, "
             "the harness, the reused C11 heap model. Histories follow the user protocol of KPIECE's Discretization; tops-are-minima "
             "is checked by the oracle and the correspondence (the heap-order theorems belong to C11).",
